@@ -66,7 +66,7 @@ def gen_case(rng, thorough=False):
             drives.append("c")
     if layers[0] == "cs_aclose":
         drives = ["s:0"]
-    return layers, stmts, drives
+    return layers, stmts, drives, (eager and rng.random() < 0.5)
 
 
 def ref_drives(layers, drives):
@@ -77,9 +77,9 @@ def ref_drives(layers, drives):
     return drives
 
 
-def judge(layers, stmts, drives, loop):
+def judge(layers, stmts, drives, loop, resolve_held=False):
     """Oracle: real wrapper stack vs CPython's native await.  Returns (real_line, ref_line, tags, bad)."""
-    real, info = cm.run_real(layers, stmts, drives, loop)
+    real, info = cm.run_real(layers, stmts, drives, loop, resolve_held)
     rd = ref_drives(layers, drives)
     ref, rinfo = cm.run_real(["ref"], stmts, rd, loop)
     tags = set()
@@ -103,6 +103,8 @@ def judge(layers, stmts, drives, loop):
         tags.add("eager-layer")
     if special:
         tags.add("athrow-or-aclose")
+    if info.get("resolved_while_held"):
+        tags.add("future-completed-while-held")
     for fl in info.get("out_flags", []):
         if not fl:
             bad = ("future yielded outward with its blocking flag clear", "flag True", "flag False")
@@ -133,10 +135,10 @@ def judge(layers, stmts, drives, loop):
     return real, ref, tags, bad, held
 
 
-def shrink(layers, stmts, drives, loop):
+def shrink(layers, stmts, drives, loop, rh=False):
     def fails_l(ls):
         try:
-            return judge(ls, stmts, drives, loop)[3] is not None
+            return judge(ls, stmts, drives, loop, rh)[3] is not None
         except Exception:  # noqa: BLE001
             return False
     # fewest layers first
@@ -152,11 +154,11 @@ def shrink(layers, stmts, drives, loop):
         if done:
             break
     head, tail = drives[:1], drives[1:]
-    tail = core.ddmin(tail, lambda t: judge(layers, stmts, head + t, loop)[3] is not None) if len(tail) > 1 else tail
-    if tail and judge(layers, stmts, head, loop)[3] is not None:
+    tail = core.ddmin(tail, lambda t: judge(layers, stmts, head + t, loop, rh)[3] is not None) if len(tail) > 1 else tail
+    if tail and judge(layers, stmts, head, loop, rh)[3] is not None:
         tail = []
     drives = head + tail
-    stmts = cm.shrink_prog(stmts, lambda p: judge(layers, p, drives, loop)[3] is not None)
+    stmts = cm.shrink_prog(stmts, lambda p: judge(layers, p, drives, loop, rh)[3] is not None)
     return layers, stmts, drives
 
 
@@ -166,26 +168,30 @@ def key_of(layers, drives, bad):
     kinds = sorted({x.split(":")[0] for x in layers})
     last = drives[-1].split(":")
     lastk = {"s": "send", "t": "genexit" if last[-1] == "GenExit" else "throw", "c": "genexit"}[last[0]]
+    if "blocking flag clear" in bad[0]:
+        return "c02:future-yielded-outward-unblocked"
     what = "flag" if "flag" in bad[0] else ("inside" if "inside" in bad[0] else "outward")
     return f"c02:{'+'.join(kinds)}:{lastk}:{what}"
 
 
 def explore(ctx, cases, loop, label=""):
     lines, reals, held_stats = [], [], []
-    for layers, stmts, drives in cases:
+    for case in cases:
+        layers, stmts, drives = case[:3]
+        rh = bool(case[3]) if len(case) > 3 else False
         try:
-            real, ref, tags, bad, held = judge(layers, stmts, drives, loop)
+            real, ref, tags, bad, held = judge(layers, stmts, drives, loop, rh)
         except SyntaxError as e:
             raise core.InfraError(f"generated program does not compile: {e}\n{cm.source(stmts)}")
         held_stats += held
         line = cm.case_line(layers, stmts, drives)
-        ctx.case(line, sorted(t for t in tags))
+        ctx.case(line + (" #resolve-held" if rh else ""), sorted(t for t in tags))
         if bad is not None:
-            l2, s2, d2 = shrink(layers, stmts, drives, loop)
-            r2 = judge(l2, s2, d2, loop)
+            l2, s2, d2 = shrink(layers, stmts, drives, loop, rh)
+            r2 = judge(l2, s2, d2, loop, rh)
             b2 = r2[3] or bad
             ctx.violation(key_of(l2, d2, b2), f"{label}{b2[0]}",
-                          {"layers": l2, "prog": s2, "drives": d2, "source": cm.source(s2)},
+                          {"layers": l2, "prog": s2, "drives": d2, "resolve_held": rh, "source": cm.source(s2)},
                           expected=b2[1], observed=b2[2],
                           theorem="Asynkit.C02.stack_trace_eq / *_trace_eq")
         lines.append(line)
@@ -245,6 +251,97 @@ def reawait(ctx, rng, loop, n):
             x.close()
 
 
+LOOP_LAYERS = ["citer", "coro_await", "am", "ami", "mon", "bmon", "ref", "cs_await", "cs_ascoro", "cs_await",
+               "cs_ascoro"]
+
+
+async def _outcome(t):
+    try:
+        r = await asyncio.wait_for(t, 5)
+        return f"r:{cm.val(r)}"
+    except asyncio.TimeoutError:
+        return "timeout"
+    except BaseException as e:  # noqa: BLE001
+        return "x:" + cm.cname(e)
+
+
+async def _loop_scenario(layers, stmts, early, loop):
+    """Run the body under a real Task.  `layers=None`: native `ref(c)`.  The first Future the body
+    blocks on is resolved by hand — for a wrapper stack with `early`, in the window between the
+    eager start and the moment the stack is awaited; later futures resolve themselves."""
+    env = cm.Env(stmts, loop, auto_after=1)
+    keep, info = [], {}
+    c = env.main()
+    keep.append(c)
+
+    def resolve_first():
+        if env.F.order and not env.F.order[0].done():
+            f = env.F.order[0]
+            f.set_result(100 + f._verif_k)
+            return True
+        return False
+    held_done = False
+    if layers is None:
+        t = asyncio.ensure_future(cm._ref(c))
+        await asyncio.sleep(0)
+        resolve_first()
+    else:
+        obj = cm.build(layers, c, keep, info)
+        if early:
+            held_done = resolve_first() and bool(info.get("held_flags"))
+        t = asyncio.ensure_future(cm._ref(obj))
+        if not early:
+            await asyncio.sleep(0)
+            resolve_first()
+    out = await _outcome(t)
+    res = f"out={out} ; phase={cm.phase(c)} ; log={env.log()}"
+    info["keep"] = (keep, None, env)
+    cm.finalize(info)
+    return res, held_done
+
+
+def loop_stream(ctx, rng, loop, n, fixed=None):
+    """Real event loop, real Tasks, real Futures: wrapper stacks with an eagerly starting layer vs a
+    native Task, including the schedule where the held Future completes before the stack is awaited."""
+    cases = fixed or []
+    for _ in range(n):
+        stmts = cm.gen_prog(rng, p_await=rng.choice([0.4, 0.5]), fut_only=True,
+                            catches=["E1", "E2", "Exception", "BaseException", "Cancelled"])
+        depth = rng.choice([1, 1, 2, 3])
+        layers = [rng.choice(LOOP_LAYERS) for _ in range(depth)]
+        if not any(cm.is_eager(x) for x in layers):
+            layers[rng.randrange(depth)] = rng.choice(["cs_await", "cs_ascoro"])
+        cases.append((layers, stmts, rng.random() < 0.7))
+
+    def run(layers, stmts, early):
+        return loop.run_until_complete(_loop_scenario(layers, stmts, early, loop))
+    for layers, stmts, early in cases:
+        got, held_done = run(layers, stmts, early)
+        exp, _ = run(None, stmts, early)
+        tags = ["real-loop"] + (["future-completed-while-held"] if held_done else []) + \
+            ([f"stack-depth-{len(layers)}"] if len(layers) > 1 else [])
+        ctx.case("loop | %s | %s | early=%d" % (",".join(layers), cm.sexp(stmts), early), tags)
+        if got != exp:
+            def fails(ls, p):
+                try:
+                    return run(ls, p, early)[0] != run(None, p, early)[0]
+                except Exception:  # noqa: BLE001
+                    return False
+            for one in layers:
+                if cm.is_eager(one) and fails([one], stmts):
+                    layers = [one]
+                    break
+            small = cm.shrink_prog(stmts, lambda p: fails(layers, p))
+            g2, e2 = run(layers, small, early)[0], run(None, small, early)[0]
+            kinds = "+".join(sorted(set(layers)))
+            ctx.violation(f"c02:loop:{kinds}:{'held-future-completed' if early else 'task'}",
+                          "wrapper stack awaited by a real Task differs from a native Task"
+                          + (" when the Future it held completed before it was awaited" if early else ""),
+                          {"kind": "loop", "layers": layers, "prog": small, "early": early,
+                           "source": cm.source(small)}, expected=e2, observed=g2,
+                          theorem="Asynkit.C02.coroStart_trace_eq / held_future_reyielded_blocking")
+
+
 def corpus_cases():
     import json
     d = core.ROOT / "corpus" / PROP
@@ -252,7 +349,7 @@ def corpus_cases():
     if d.exists():
         for f in sorted(d.glob("*.json")):
             c = json.loads(f.read_text())
-            out.append((c["layers"], _tuplify(c["prog"]), c["drives"]))
+            out.append((c["layers"], _tuplify(c["prog"]), c["drives"], c.get("resolve_held", False)))
     return out
 
 
@@ -301,10 +398,12 @@ def run(ctx):
             explore(ctx, cases, loop)
             if first:
                 for c in cases[:3]:
-                    ctx.sample(cm.case_line(*c))
+                    ctx.sample(cm.case_line(*c[:3]))
                 first = False
             n -= len(cases)
         reawait(ctx, rng, loop, 1500 if ctx.thorough() else 200)
+        asyncio.set_event_loop(loop)
+        loop_stream(ctx, rng, loop, 6000 if ctx.thorough() else 600)
         ex = list(exhaustive_small())
         if not ctx.thorough():
             ex = rng.sample(ex, 600)
@@ -313,17 +412,23 @@ def run(ctx):
         ctx.extra.pop("_hT", None)
         ctx.extra.pop("_hF", None)
     finally:
+        asyncio.set_event_loop(None)
         loop.close()
 
 
 def replay(ctx, data):
     c = data["case"]
     loop = asyncio.new_event_loop()
+    asyncio.set_event_loop(loop)
     try:
         if "line" in c and "layers" not in c:
             # a correspondence disagreement: re-run the line on both sides
             parts = [p.strip() for p in c["line"].split("|")]
             raise core.InfraError("replay of raw correspondence lines: re-run ./check C02 (line: %s)" % parts)
-        explore(ctx, [(c["layers"], _tuplify(c["prog"]), c["drives"])], loop, label="replay: ")
+        if c.get("kind") == "loop":
+            loop_stream(ctx, None, loop, 0, fixed=[(c["layers"], _tuplify(c["prog"]), c["early"])])
+            return
+        explore(ctx, [(c["layers"], _tuplify(c["prog"]), c["drives"], c.get("resolve_held", False))], loop,
+                label="replay: ")
     finally:
         loop.close()
